@@ -328,6 +328,48 @@ def is_small(r) -> bool:
     return all(any(n in INFINITESIMAL for n, _ in m) for m in r.n.t)
 
 
+def _eps_groups(r):
+    """numerator terms grouped by their total power of infinitesimal symbols, the infinitesimal symbols removed"""
+    groups = {}
+    for m, c in r.n.t.items():
+        k = sum(p for n_, p in m if n_ in INFINITESIMAL)
+        m2 = tuple((n_, p) for n_, p in m if n_ not in INFINITESIMAL)
+        g = groups.setdefault(k, {})
+        g[m2] = g.get(m2, 0) + c
+    return groups
+
+
+def eps_power(k):
+    r = Rat(1)
+    for _ in range(int(k)):
+        r = r * Rat.sym("eps", "pos")
+    return r
+
+
+def eps_factor(r):
+    """r = eps^k * rest with rest free of infinitesimals -> (k, rest); None when the terms are of different order, several
+    infinitesimal symbols are involved or the denominator carries one"""
+    r = rat(r)
+    if r.d.symbols() & INFINITESIMAL or (r.symbols() & INFINITESIMAL) - {"eps"}:
+        return None
+    if r.n.is_zero():
+        return (0, r)
+    groups = _eps_groups(r)
+    if len(groups) != 1:
+        return None
+    (k, terms), = groups.items()
+    return (k, Rat(Poly(terms), r.d))
+
+
+def eps_lowest(r):
+    """the lowest-order part of r (infinitesimals removed); None when the denominator carries an infinitesimal"""
+    r = rat(r)
+    if r.d.symbols() & INFINITESIMAL or r.n.is_zero():
+        return None
+    groups = _eps_groups(r)
+    return Rat(Poly(groups[min(groups)]), r.d)
+
+
 def rat(v):
     if isinstance(v, Rat):
         return v
